@@ -572,6 +572,61 @@ def rule_stackend(ctx, rep, rid="R-C02-stackend"):
     r.note("%d end-specific accesses on %d stack-like field(s)" % (n, sum(1 for k, o in per.items() if {x[0] for x in o} & {"push", "push_front", "push_back"} and {x[0] for x in o} & {"pop", "pop_front", "pop_back"})))
 
 
+def rule_bracket(ctx, rep, rid="R-C02-bracket"):
+    """Typestate over the traversal graph: a visitor that opens scopes (enter/exit) must declare names only inside one.  A declaration
+    made outside every bracket lands in the outermost scope, is never removed, and is then visible to every unit visited later -
+    the verdict starts to depend on the visiting order."""
+    r = rep.rule(rid, "scoped visitors declare names only inside a scope: for every Visitor whose overrides call SymbolTable::enter, each "
+                      "override that adds a name is reachable from Library only through an override that brackets its recursion with enter/exit",
+                 floor=1, floor_what="adding overrides of scoped visitors")
+    T = Traversal(ctx, "visit")
+    impls = T.impls({"ironplc_analyzer"})
+    ENTER = "ironplc_analyzer::symbol_table::SymbolTable::enter"
+    ADDERS = {"ironplc_analyzer::symbol_table::SymbolTable::add", "ironplc_analyzer::symbol_table::SymbolTable::add_if",
+              "ironplc_analyzer::symbol_table::SymbolTable::try_add"}
+    n = 0
+    for v, ms in sorted(impls.items()):
+        def names(b):
+            return {re.sub(r"::<[^>]*>", "", c.callee or "") for c in b.calls()}
+        brackets = {m for m, b in ms.items() if ENTER in names(b)}
+        if not brackets:
+            continue
+        adders = {m for m, b in ms.items() if names(b) & ADDERS and m not in brackets}
+        # traversal from Library that does not look inside bracketing overrides
+        seen, st, parent = set(), [("rv", "ironplc_dsl::common::Library")], {}
+        while st:
+            node = st.pop()
+            if node in seen:
+                continue
+            seen.add(node)
+            if node[0] == "v" and node[1] in brackets:
+                continue
+            for nx in T.succ(node, ms):
+                if nx not in seen:
+                    parent.setdefault(nx, node)
+                    st.append(nx)
+        vname = re.sub(r"<.*", "", v.split("ironplc_analyzer::")[-1])
+        for m in sorted(adders):
+            n += 1
+            b = ms[m]
+            inst = "%s|%s" % (vname, m)
+            where = "%s:%d" % (b.f["file"], b.f["line"])
+            if ("v", m) in seen:
+                path, cur = [], ("v", m)
+                while cur in parent:
+                    path.append(cur[1].split("::")[-1])
+                    cur = parent[cur]
+                path.append("Library")
+                # name the un-bracketed owners: the last type on the path before the adder
+                owner = [x for x in reversed(path) if not x.startswith("visit_")]
+                r.finding(inst + "|outside-scope via " + (path[1] if len(path) > 1 else "?"), where,
+                          "names are added outside every enter/exit bracket along %s: they stay in the outermost scope for the rest of the walk, "
+                          "so units visited later see them (order-dependent verdict)" % " <- ".join(path[:6]))
+            else:
+                r.ok(inst, where, "only reached below " + ", ".join(sorted(brackets)))
+    r.note("%d adding overrides of scoped visitors" % n)
+
+
 def run(ctx, rep):
     rep.not_decided += ["that each rule's predicate is the documented one (value-level)", "acceptance of all valid programs",
                         "single/double-fault behaviour on generated programs"]
@@ -583,3 +638,4 @@ def run(ctx, rep):
     rule_scope(ctx, rep)
     rule_propagate(ctx, rep)
     rule_stackend(ctx, rep)
+    rule_bracket(ctx, rep)
